@@ -152,10 +152,18 @@ class SimEigsh:
             rng = np.random.default_rng(self.v0_seed)
             kw["v0"] = rng.uniform(-1, 1, A.shape[0])
         try:
-            return eigsh(A=A, M=M, sigma=sigma, **kw)
+            vals, vecs = eigsh(A=A, M=M, sigma=sigma, **kw)
         except Exception as e:
             e._fesim_real = True
             raise
+        # a user-supplied solver need not return its pairs in ascending order (a dense solver, highest
+        # mode first, ...): the pairs stay pairs
+        order = getattr(self, "order", "ascending")
+        if order == "descending":
+            vals, vecs = vals[::-1].copy(), vecs[:, ::-1].copy()
+        elif order == "rotated" and len(vals) > 2:
+            vals, vecs = np.roll(vals, 1), np.roll(vecs, 1, axis=1)
+        return vals, vecs
 
 
 def build(doc, rigid=None):
@@ -298,6 +306,7 @@ def run(doc, log):
         job = fem.FreeVibration(w.items, w.boundaries)
     bounds0 = dict(w.boundaries)
     sim = SimEigsh(log, doc.get("fault"))
+    sim.order = ("ascending", "ascending", "descending", "rotated")[pick(doc["seed"], "solver-order", 4)]
     K, M, dof1 = independent_operators(doc, w)
     if len(dof1) < 12:
         raise Discard("too-few-free-unknowns")
